@@ -44,6 +44,96 @@ class Target:
         raise KeyError(tag)
 
 
+class SlowTarget:
+    """coroutine methods whose cancellation takes a few loop iterations (a flush / close in a finally block), next
+    to ones that end at once"""
+
+    def __init__(self):
+        self.done = []
+        self.lock = threading.Lock()
+
+    def _rec(self, what, tag):
+        with self.lock:
+            self.done.append((what, tag, threading.get_ident()))
+
+    async def wait(self, tag):
+        await asyncio.sleep(3600)
+
+    async def cleanup(self, tag):
+        try:
+            await asyncio.sleep(3600)
+        finally:
+            for _ in range(4):
+                await asyncio.sleep(0)
+            self._rec("cleanup_done", tag)
+
+    async def raise_quick(self, tag):
+        try:
+            await asyncio.sleep(3600)
+        except asyncio.CancelledError:
+            raise KeyError(tag)
+
+    async def slow_return(self, tag):
+        try:
+            await asyncio.sleep(3600)
+        except asyncio.CancelledError:
+            for _ in range(4):
+                await asyncio.sleep(0)
+            return 7000 + tag
+
+
+def run_stop_case(pattern):
+    """coroutine calls of several kinds outstanding through the proxy when the owner's loop is stopped: every caller
+    gets a result or an exception (a cancellation counts) instead of blocking, and clean-up code runs to its end"""
+    import bellows.thread as bt
+    tgt = SlowTarget()
+    out = {"hang": False}
+
+    async def main():
+        elt = bt.EventLoopThread()
+        await elt.start()
+        proxy = bt.ThreadsafeProxy(tgt, elt.loop)
+
+        async def one(i, kind):
+            try:
+                r = await asyncio.wait_for(getattr(proxy, kind)(i), 1.5)
+                return ["value", r]
+            except asyncio.TimeoutError:
+                return ["blocked"]
+            except asyncio.CancelledError:
+                return ["cancelled"]
+            except KeyError as e:
+                return ["exception", e.args[0]]
+            except BaseException as e:  # noqa
+                return ["other", type(e).__name__]
+
+        tasks = [asyncio.ensure_future(one(i, k)) for i, k in enumerate(pattern)]
+        await asyncio.sleep(0.05)          # all calls are parked on the owner's loop
+        elt.force_stop()
+        out["results"] = await asyncio.gather(*tasks)
+        try:
+            await asyncio.wait_for(elt.thread_complete, 3)
+        except asyncio.TimeoutError:
+            out["hang"] = True
+
+    loop = asyncio.new_event_loop()
+    asyncio.set_event_loop(loop)
+    try:
+        loop.run_until_complete(asyncio.wait_for(main(), 15))
+    except asyncio.TimeoutError:
+        out["hang"] = True
+    except BaseException as e:  # noqa
+        out["crash"] = repr(e)
+    finally:
+        loop.close()
+    out["cleanup_done"] = sorted(t for w, t, _ in tgt.done if w == "cleanup_done")
+    return out
+
+
+STOP_PATTERNS = [["cleanup", "wait", "wait", "wait"], ["wait", "wait", "cleanup", "wait"], ["raise_quick", "slow_return"],
+                 ["wait"], ["cleanup"], ["slow_return", "raise_quick", "cleanup", "wait"], ["wait", "wait", "wait"]]
+
+
 def run_case(kind, caller, owner_state, burst, fetch="call"):
     """returns per call: executed thread class and what the caller saw"""
     import bellows.thread as bt
@@ -161,13 +251,15 @@ class Check(PropertyCheck):
     shard = 300
     rule = ("every method kind (coroutine returning a value / None / raising, plain returning None / a value / raising, non-callable "
             "attribute) x caller loop {owner, another thread} x owner-loop state {running, stopping, closed} x bursts of 1..200 concurrent "
-            "calls, the attribute looked up at the call or beforehand on the other loop (hand-over of the callable), with real threads; each call of a burst is one evaluation; non-trivial = caller on another thread; distinct by "
+            "calls, coroutine calls of several kinds (clean-up taking several loop iterations) outstanding when the owner's loop is stopped, the attribute looked up at the call or beforehand on the other loop (hand-over of the callable), with real threads; each call of a burst is one evaluation; non-trivial = caller on another thread; distinct by "
             "(kind, caller, state, burst size)")
     assumptions = ["thread scheduling is not controlled: the runtime half is exploration, not proof",
                    "owner-loop state 'stopping' has no model counterpart"]
 
     def build_cases(self, tier, rng):
         cases = []
+        for p in STOP_PATTERNS:
+            cases.append({"kind": "stop", "caller": "other", "state": "stopping", "burst": len(p), "pattern": p})
         bursts = [1, 7, 50] if tier == "quick" else [1, 2, 7, 50, 200]
         for kind in KINDS:
             for caller in ("other", "owner"):
@@ -183,6 +275,8 @@ class Check(PropertyCheck):
         return cases
 
     def run_impl(self, case):
+        if case["kind"] == "stop":
+            return run_stop_case(case["pattern"])
         return run_case(case["kind"], case["caller"], case["state"], case["burst"], case.get("fetch", "call"))
 
     def describe(self, case):
@@ -199,7 +293,7 @@ class Check(PropertyCheck):
         return callable_, coroutine, same, closed, body
 
     def model_input(self, case):
-        if case["state"] == "stopping":
+        if case["kind"] == "stop" or case["state"] == "stopping":
             return None
         c, co, s, cl, body = self._params(case)
         b = lambda x: "true" if x else "false"
@@ -237,6 +331,19 @@ class Check(PropertyCheck):
             return f"crashed: {obs['crash']}"
         if obs.get("hang"):
             return "the scenario blocked (a call or the owner thread did not finish)"
+        if case["kind"] == "stop":
+            for i, (k, r) in enumerate(zip(case["pattern"], obs.get("results", []))):
+                if r[0] == "blocked":
+                    return (f"coroutine call {i} ({k}) outstanding when the owner's loop was stopped never got a result or an "
+                            f"exception: its caller blocks")
+                if k == "slow_return" and r not in (["value", 7000 + i], ["cancelled"]):
+                    return f"call {i} ({k}): result not relayed: {r}"
+                if k == "raise_quick" and r not in (["exception", i], ["cancelled"]):
+                    return f"call {i} ({k}): exception not relayed: {r}"
+            want = [i for i, k in enumerate(case["pattern"]) if k == "cleanup"]
+            if obs.get("cleanup_done") != want:
+                return f"clean-up code of calls {want} was abandoned half-way on the owner's loop (finished: {obs.get('cleanup_done')})"
+            return None
         kind, caller, state, burst = case["kind"], case["caller"], case["state"], case["burst"]
         for k, tag, where in obs["executed"]:
             if caller == "other" and where != "owner":
